@@ -29,23 +29,31 @@ call (not tolerance): setNumberDensities = "everything not listed -> 0";  setMas
 children holds through setNumberDensity/addMass/setMass is accepted and counted (extra.refused), creation through
 updateNumberDensities must read back.
 
-Violation ids: "<clause>.<level>" (level in component/block/assembly/core) with the circumstance suffix
+Violation ids: "<clause>.<level>" (level in component/block/assembly/core), with circumstance suffixes (features of the input, so
+that a finding about that circumstance cannot mask the clause elsewhere):
     .cut-block        the object is a component of a block whose symmetry factor is not 1
-so that a finding about that circumstance cannot mask the clause elsewhere.
-    symmetry.factor  volume.* area.* volume.area-x-height.* volume.derived-fills.block  nuclides.* ndens.bulk.* ndens.list.* ndens.single.*
-    mass.total.* mass.nuclide.* mass.children.* mass.element.* mass.list.* mass.getMasses.* atoms.* atoms.children.* density.*
-    massfracs.sum.*
-    <op>.readback.* <op>.others.* <op>.raises.* <op>.refusal-changed-state.*  for op in setNumberDensity addNuclide updateNumberDensities
-        setNumberDensities wipe changeNDensByFactor addMass setMass addMasses setMasses setMassFracs
-    changeNDensByFactor.detailed.*  setMassFracs.proportions.* setMassFracs.density.* setMasses.unlisted.*
-    dt.massfracs-sum dt.massfracs-value dt.ndens-roundtrip dt.massdensity-roundtrip dt.massfracs-roundtrip dt.mass-ndens-inverse
-    dt.ndens-mass-inverse dt.mass-formula dt.mass-total dt.normalize units.avogadro
+    .all-zero         every nuclide of the object has been set to zero by the edits before
+    .ambiguous-name   the selected name is a nuclide present here (natural element, e.g. MO) AND the symbol of an element of which
+                      other isotopes are present in the object (e.g. MO98)
+  accounting   symmetry.factor  volume.* volume.children.* area.block volume.area-x-height.* volume.derived-fills.block  nuclides.*
+               ndens.bulk.* ndens.list.* ndens.single.* ndens.children.*  mass.total.* mass.nuclide.* mass.children.* mass.element.*
+               mass.list.* mass.getMasses.*  atoms.* atoms.children.*  density.* density.raises.*  massfracs.sum.* massfracs.value.*
+               generated.construct
+  setters      <op>.readback.* <op>.others.* <op>.raises.* <op>.refusal-changed-state.*  for op in setNumberDensity (also removal = set to 0)
+               addNuclide updateNumberDensities setNumberDensities changeNDensByFactor addMass removeMass setMass addMasses setMasses
+               setMassFracs;  wipe.others.*  changeNDensByFactor.detailed.*  setMassFracs.proportions.* setMassFracs.density.*
+               setMasses.unlisted.*
+  densityTools dt.massfracs-sum dt.massfracs-value dt.massdensity-formula dt.ndens-roundtrip dt.massdensity-roundtrip
+               dt.massfracs-roundtrip dt.normalize dt.mass-formula dt.mass-ndens-inverse dt.ndens-mass-inverse dt.mass-total units.avogadro
+
+Replay: --replay '<the "input" of a violation>' re-runs that object's accounting clauses, or (when it carries "seed") that edit sequence.
 """
 import copy
 import json
 import math
 import os
 import random
+import re
 import sys
 import tempfile
 import time
@@ -72,9 +80,12 @@ B = Bounded(
     "and core level, each starting from the loaded state, read-back + frame checked after every call and the accounting clauses "
     "re-evaluated at the end; (3) seeded compositions through the densityTools conversions.  distinct = (source, object path, "
     "clause group / sequence seed); non-trivial = the object holds nuclides and has non-zero volume",
-    bound="quick: 2 reactors + edge variant (all 400+ blocks, all components), 19 shape classes x 3 materials x 3 multiplicities; "
-    "edit sequences of length <= 6 (about 450 sequences), 300 compositions of <= 12 nuclides.  thorough: same objects with every "
-    "nuclide through the single-nuclide API, 6 materials x 6 multiplicities, sequences of length <= 10 (about 4000), 5000 compositions",
+    bound="quick: 2 reactors + edge variant: every block, assembly and core, the components of 1-2 seeded blocks per assembly (about 2250 "
+    "components), 19 shape classes x 3 materials x 3 multiplicities = 171 generated blocks; about 660 edit sequences of length <= 6 "
+    "(about 2000 setter calls) over 46 reactor targets + 3 per generated block; 300 compositions of <= 12 nuclides.  thorough: every "
+    "component, every nuclide through the single-nuclide API, 6 materials x 6 multiplicities = 684 generated blocks, about 10000 "
+    "sequences of length <= 10 (about 50000 setter calls) over 400 reactor targets, 5000 compositions.  Only hex blocks; only the "
+    "framework's materials (none has composition-dependent expansion); third-core periodic and full-core symmetry only",
 )
 ACC = 1e-10
 SET = 1e-12
@@ -227,7 +238,7 @@ GEN_CTX = [None]
 
 
 def describe(src, o):
-    d = {"source": src, "level": level_of(o), "path": path_of(o), "object": repr(o)[:80]}
+    d = {"source": src, "level": level_of(o), "path": path_of(o), "object": re.sub(r"id:\d+", "id:*", repr(o))[:80]}
     if src.startswith("gen"):
         d["gen"] = GEN_CTX[0]
     if level_of(o) == "component":
@@ -246,7 +257,7 @@ def element_symbols(nucs):
         if el is None:
             continue
         out.setdefault(el.symbol, []).append(n)
-    return {s: v for s, v in out.items() if s not in nucs and s not in nuclideBases.byName}
+    return {s: v for s, v in out.items() if s not in nucs}
 
 
 def ambiguous(names, nucs):
